@@ -54,6 +54,8 @@ Ctx(case, k) ==
   [line |-> file[k + 1], headers |-> HeadersOf(file), k |-> k,
    dataCount |-> LmCount(CountData(file, k)), endNum |-> N - 1,
    lastScan |-> IsLastScanLine(case.prog.scan, k, N),
+   \* the number of the most recent record with data (LineMonitor.data_line_number; -1 before the first)
+   lastDataK |-> LET D == {j \in 0..k : file[j + 1] # <<>>} IN IF D = {} THEN -1 ELSE CHOOSE j \in D : \A x \in D : x <= j,
    totalData |-> LmCount(CountData(file, N - 1)), AND |-> case.cfg.AND, comps |-> case.prog.comps,
    meta |-> case.prog.meta,
    \* the error policy of the configuration and the csvpath's validation-mode overrides (default: the scratch configuration)
